@@ -86,7 +86,7 @@ def inject(d):
     return None
 
 
-def run(prop, timeout=900):
+def run(prop, timeout=600):
     """returns list of {harness, status: ok|fail|undecided, detail, wall_s, cmd, checks}"""
     out = []
     if prop not in HARNESSES:
